@@ -1228,7 +1228,8 @@ def run_appclock(pr):
         after = main.elapsed_time()
         # the scheduler read the clock between the two readings: scheduled time within [before + d, after + d]
         obs['tasks_sched'].append([i, fr(Fraction(before) + Fraction(d)), fr(Fraction(after) + Fraction(d))])
-        expected += 1
+        if Fraction(d) < Fraction(1, 4):
+            expected += 1               # the entry pending far in the future only has to BE there, the probe does not wait for it
     Routine(rbody).play(AppClock)
     deadline = time.time() + 6.0
     while time.time() < deadline and obs['done'] < expected:
@@ -1277,13 +1278,93 @@ def run_race(pr):
     return obs
 
 
+# ---------------------------------------------------------------- function tasks that send (every clock, NRT and RT)
+def run_fntask(pr):
+    """A PLAIN FUNCTION scheduled with clock.sched(delta, f) -- from the main thread or from inside a routine -- sends a bundle when the
+    clock wakes it at logical time t (and once more if it returns a number)."""
+    global _INTS
+    _INTS = bool(pr.get('ints'))
+    if MODE == 'nrt':
+        main.reset()
+    lock = main._main_lock
+    addr = NetAddr('127.0.0.1', 57110)
+    obs = {'runs': [], 'done': False}
+    captured = []
+    clocks = []
+    with lock:
+        for t in pr['tempos']:
+            clocks.append(TempoClock(num(t)))
+        obs['clock_base'] = [fr(c._base_seconds) for c in clocks]
+    if MODE == 'rt':
+        main._osc_interface._send = lambda msg, target: captured.append(bytes(msg.dgram))
+        obs['osc_offset'] = str(SystemClock._elapsed_osc_offset)
+
+    def ck(c):
+        return SystemClock if c == 'S' else AppClock if c == 'A' else clocks[c[1]]
+    target = ck(pr['clock'])
+
+    def build(es):
+        return [['/m', int(e[1])] if e[0] == 'm' else [lat_of(e[1])] + build(e[2]) for e in es]
+    state = {'n': 0}
+
+    def f():
+        rec = {'t': fr(main.current_tt._seconds), 'raised': None, 'tree': None}
+        score = main._osc_interface._osc_score if MODE == 'nrt' else None
+        c0 = max(x[1] for x in score._scoreq._queue) if score else None
+        n0 = len(captured)
+        try:
+            addr.send_bundle(lat_of(pr['lat']), *build(pr['es']))
+            if MODE == 'nrt':
+                ent = max((x for x in score._scoreq._queue if x[1] > c0), key=lambda x: x[1])
+                rec['tree'] = _no_imm(merge(ent[2].bndl, parse_packet(bytes(ent[2].msg[4:]))))
+            else:
+                rec['tree'] = merge(None, parse_packet(captured[n0]), int(obs['osc_offset']))
+        except Exception as e:
+            rec['raised'] = type(e).__name__
+        obs['runs'].append(rec)
+        state['n'] += 1
+        if pr.get('again') is not None and state['n'] == 1:
+            return num(pr['again'])          # numeric return: woken once more
+        obs['done'] = True
+        return None
+
+    if pr['from'] is None:
+        with lock:
+            before = main.elapsed_time() if MODE == 'rt' else None
+            target.sched(num(pr['delta']), f)
+            if before is not None:
+                obs['bounds'] = [fr(before), fr(main.elapsed_time())]
+    else:
+        parent = ck(pr['from'])
+
+        def pbody(inval):
+            yield num(pr['adv'])
+            obs['T'] = fr(main.current_tt._seconds)
+            target.sched(num(pr['delta']), f)
+
+        def root(inval):
+            yield num(pr['start'])
+            Routine(pbody).play(parent, 0)
+        with lock:
+            Routine(root).play(SystemClock)
+    if MODE == 'nrt':
+        main.process(0)
+    else:
+        deadline = time.time() + 6.0
+        while time.time() < deadline and not obs['done']:
+            time.sleep(0.01)
+        for c in clocks:
+            c.stop()
+    return obs
+
+
 STUCK_AFTER = 90.0      # every wait of this runner is bounded by 8 s; an item that holds the process for 90 s is stuck, not slow
 
 
 def main_():
     payload = json.load(open(sys.argv[1]))
     results = {'out': [], 'probes_out': [], 'alongside_out': [], 'clumps_out': [], 'msgnest_out': [], 'nextdrive_out': [], 'clockseq_out': [],
-               'appclock_out': [], 'race_out': []}
+               'appclock_out': [], 'race_out': [], 'fntask_out': []}
     state = {'t': time.time(), 'key': None, 'item': None, 'finished': False}
 
     def dump():
@@ -1306,7 +1387,7 @@ def main_():
     plan = [('cases', 'out', (lambda pr: run_nrt(pr, payload.get('share_lists', False))) if MODE == 'nrt' else run_rt),
             ('probes', 'probes_out', run_probe), ('alongside', 'alongside_out', run_alongside), ('clumps', 'clumps_out', run_clump),
             ('msgnest', 'msgnest_out', run_msgnest), ('nextdrive', 'nextdrive_out', run_nextdrive), ('clockseq', 'clockseq_out', run_clockseq),
-            ('appclock', 'appclock_out', run_appclock), ('race', 'race_out', run_race)]
+            ('appclock', 'appclock_out', run_appclock), ('race', 'race_out', run_race), ('fntask', 'fntask_out', run_fntask)]
     for key, okey, fn_ in plan:
         for pr in payload.get(key, []):
             state.update(t=time.time(), key=okey, item=pr)
